@@ -105,7 +105,11 @@ def stepLook (l : Look) : Out :=
       let key := fieldStr r.key (fun o => match o with | some k => toHex k | none => "NULL")
       let idx := fieldStr r.index toString
       { model := lookLine l.tree res (toString r.errno) true ++ s!" ## parent={par} key={key} idx={idx}",
-        spec := sline, tags := tags (r.rc = 0),
+        spec := sline,
+        tags := tags (r.rc = 0) ++
+          (match r.index, r.pos.getLast? with
+           | .set f, some i => if r.rc = 0 ∧ !l.ptr.isEmpty ∧ f ≠ i then ["ptr.result.index-u32"] else []
+           | _, _ => []),
         cov := [kindCov, if r.rc = 0 then "found" else "fail-" ++ toString r.errno] ++
                (if r.rc = 0 && isNull r.val then ["null-target"] else []) ++ ptrCov l.tree l.ptr }
   | k =>
